@@ -707,23 +707,42 @@ def check_all_returns_instrumented(ctx, tag="C10.7"):
     visits = [n for n in g.live_nodes() if any(isinstance(c.func, ast.Attribute) and c.func.attr == "visit" for c in node_calls(n))]
     need(visits, f"{tag}: the transformer pass was not found in source_to_code")
     n_ret = 0
-    for rn in [n for n in g.live_nodes() if n.kind == "return"]:
-        n_ret += 1
-        v = rn.ast.value
+    from . import c05
+
+    def judge(v, at):
+        """'ok' | 'bad' | None for the value expression `v` evaluated at CFG node `at`"""
         src = v
         if isinstance(v, ast.Name):
-            from . import c05
-
             defs = c05._assignments_to(f, v.id)
             src = defs[0][1] if len(defs) == 1 and defs[0][2] is None else None
         if not isinstance(src, ast.Call):
-            raise AnalysisError(f"{tag}: cannot tell what `{norm(rn.ast)}` in source_to_code returns")
+            return None
         args = [norm(a) for a in src.args]
         is_compile = (isinstance(src.func, ast.Name) and src.func.id == "compile") or (args and args[0] == "compile")
-        after_visit = any(vn.id in dom[rn.id] for vn in visits)
+        after_visit = any(vn.id in dom[at.id] for vn in visits)
         if is_compile and after_visit and not any("PyCF_ONLY_AST" in a for a in args):
+            return "ok"
+        if is_compile and not any("PyCF_ONLY_AST" in a for a in args) or (isinstance(src.func, ast.Attribute) and src.func.attr == "source_to_code"):
+            return "bad"
+        return None
+
+    for rn in [n for n in g.live_nodes() if n.kind == "return"]:
+        n_ret += 1
+        v = rn.ast.value
+        verdict = judge(v, rn)
+        if verdict is None and isinstance(v, ast.Subscript) and isinstance(v.ctx, ast.Load):
+            # `return MEMO[key]`: what the memo holds is what this method stored there
+            bt = norm(v.value)
+            stores = [(n, n.ast.value) for n in g.live_nodes() if n.kind == "stmt" and isinstance(n.ast, ast.Assign)
+                      and any(isinstance(t, ast.Subscript) and norm(t.value) == bt for t in n.ast.targets)]
+            others = [x for q_, f2 in m.functions.items() if f2 is not f and not f2.module.short.startswith("_typeguard") for x in walk_scope(f2.node)
+                      if isinstance(x, ast.Assign) and any(isinstance(t, ast.Subscript) and norm(t.value).split(".")[-1] == bt.split(".")[-1] for t in x.targets)]
+            if stores and not others:
+                vs = [judge(val, n) for n, val in stores]
+                verdict = "ok" if all(x == "ok" for x in vs) else "bad" if any(x == "bad" for x in vs) else None
+        if verdict == "ok":
             ctx.ok(tag, f.qualname, f"`{short(rn.ast, 60)}`: the compiled tree went through the transformer on every path to this return")
-        elif is_compile and not any("PyCF_ONLY_AST" in a for a in args) or (isinstance(src.func, ast.Attribute) and src.func.attr == "source_to_code"):
+        elif verdict == "bad":
             ctx.bad(tag, f, rn.ast, f"`{short(rn.ast, 70)}` returns code that did not go through the transformer on every path leading here: the module runs (and is "
                     "cached under the instrumented tag) without its decorators", construct=f"un-instrumented return: {short(rn.ast, 70)}")
         else:
